@@ -109,6 +109,16 @@ def evaluate(case):
             fails.append("fourier_transform: an integer-typed output grid gives different (truncated) values than the same grid as floats")
     except Exception as ex:  # noqa: BLE001
         fails.append(f"fourier_transform: an integer-typed output grid raises {type(ex).__name__}")
+    # "every output grid": a long-range output point (phase x*x' of 1e9 and more) is still the trapezoid sum of y*sin(x*x') — the sine
+    # of a large argument is a well-defined number, computed by the library to an ulp
+    if len(x) <= 200 and float(np.abs(x).max()) > 0:
+        tbig = np.array([3.0e9, -7.1e10]) / float(np.abs(x).max())
+        _, vbig, _ = tr.fourier_transform(x, y, tbig)
+        for k2, t2 in enumerate(tbig):
+            refb = direct(x, y, t2)
+            if abs(np.asarray(vbig)[k2] - refb) > 1e-9 * sc:
+                fails.append(f"fourier_transform: value at the long-range point x'={t2!r} is {np.asarray(vbig)[k2]!r}, trapezoid sine quadrature gives {refb!r}")
+                break
     # the documented positional form (xin, yin, xout, xmin, xmax, dy_in) with the full data range is the plain call
     try:
         _, vpos, _ = tr.fourier_transform(x, y, xo, float(x.min()), float(x.max()), dy)
